@@ -239,6 +239,7 @@ class Interp:
         self.check_align = True
         self.strict_uninit = True
         self.callstack = []
+        self._mod_stack = []
         self.trace_calls = None  # optional list to append (name, args) of every call
         self.fresh_n = 0
         self.loop_hook = None
@@ -1142,6 +1143,12 @@ class Interp:
         if name in ("memcmp", "bcmp"):
             return self.memcmp(args[0], args[1], args[2], name == "bcmp")
         f = self.prog.fn.get(name)
+        if self._mod_stack:
+            # a definition in the calling function's own module wins (internal-linkage names such as __cxx_global_var_init
+            # exist once per TU)
+            lf = self._mod_stack[-1].functions.get(name)
+            if lf is not None and not lf.is_decl:
+                f = lf
         if f is None or f.is_decl:
             if self.external_handler is not None:
                 return self.external_handler(self, name, args, site)
@@ -1247,10 +1254,12 @@ class Interp:
         if len(self.callstack) > self.max_call_depth:
             raise ExecError("unsupported", "call depth")
         self.callstack.append(self.prog.demangled.get(fn.name, fn.name).split("(")[0][-60:])
+        self._mod_stack.append(fn.module)
         try:
             return self._exec(fn, args)
         finally:
             self.callstack.pop()
+            self._mod_stack.pop()
 
     def operand(self, v, ty, regs, lay):
         if isinstance(v, ir.Reg):
